@@ -43,8 +43,17 @@ Definition orig : cfg := mkCfg false false false false false.
 Definition stage2 : cfg := mkCfg true true true false false.
 Definition fixed : cfg := mkCfg true true true true true.
 
+(* the names both routers list (with fixes/C07-alias-names: the last two are the other names under which the
+   library creates the SWAPalpha and ISWAP gates - class SWAPALPHA's default name, GATE_CLASS_MAP alias "iSWAP") *)
 Definition swap_gates : list string :=
+  ["SWAP"; "ISWAP"; "SQRTISWAP"; "SQRTSWAP"; "BERKELEY"; "SWAPalpha"; "SWAPALPHA"; "iSWAP"].
+(* the list before that fix *)
+Definition swap_gates_old : list string :=
   ["SWAP"; "ISWAP"; "SQRTISWAP"; "SQRTSWAP"; "BERKELEY"; "SWAPalpha"].
+
+(* the two names added by fixes/C07-alias-names *)
+Definition alias_names : list string := ["SWAPALPHA"; "iSWAP"].
+Definition is_alias (n : string) : bool := existsb (String.eqb n) alias_names.
 
 Definition is_ctrl (n : string) : bool := String.eqb n "CNOT" || String.eqb n "CSIGN".
 Definition is_swapk (n : string) : bool := existsb (String.eqb n) swap_gates.
